@@ -41,6 +41,15 @@ def relocation(tool, params, files, rng_times, same_length, octx=None, wide=Fals
         os.makedirs(os.path.dirname(mp), exist_ok=True)
         open(mp, 'wb').write(files['@mirror'])
         os.remove(os.path.join('in', '@mirror'))
+    seen_content = {}
+    for rel in sorted(k for k in files if not k.startswith('@')):
+        c = files[rel]
+        if c and c in seen_content:          # equal contents: second name = hard link to the first (copytree below breaks the link)
+            p = os.path.join('in', *rel.split('/'))
+            os.remove(p)
+            os.link(os.path.join('in', *seen_content[c].split('/')), p)
+        elif c:
+            seen_content[c] = rel
     rc1, _ = E.generate(tool, 'in', 'ecc3.db', params + ['--ecc_algo', '3'])
     dst, db2 = ('mv', 'ecm3.db') if same_length else ('moved/else/where', 'ecc_moved.db')
     if wide:
@@ -219,6 +228,9 @@ def trees(ctx):
     t = [{'a.txt': rb(300), 'sub/b.bin': rb(1), 'sub/deep/c': b'', 'z\xe9.dat': rb(1500)},
          {'x': rb(64), 'y/y': rb(65), 'y/z z': rb(1024)},
          {'only.bin': rb(2000)},
+         # the same content under two names: in the original root they are HARD LINKS to one inode (relocation(): de-duplicated backups,
+         # `cp -l` snapshots), in the moved copy two separate files — the body depends on paths and contents only
+         (lambda c: {'a.bin': c, 'mirror/a_again.bin': c, 'b.txt': rb(40)})(rb(200)),
          # folders holding only sub-folders, several siblings: the walk order must not depend on the listing order
          {'@mirror': rb(90), 'plain.txt': rb(60)},
          {'p/2019/a.jpg': rb(120), 'p/2020/b.jpg': rb(130), 'p/2018/c.jpg': rb(140), 'p/2021/x/y.jpg': rb(10), 'q/r/s/t': rb(70), 'q/a/u': rb(71)}]
